@@ -680,7 +680,22 @@ pub fn judge_with(
             match r2 {
                 Err(p) => return Verdict::Panic(p),
                 Ok(Some(_)) => return Verdict::Forged("Biscuit::from refuses but UnverifiedBiscuit::from+verify accepts".into()),
-                Ok(None) => return Verdict::Rejected,
+                Ok(None) => {
+                    // the deprecated loader only differs for third-party blocks in the legacy layout: whatever else it
+                    // accepts must be accepted by the independent verifier in legacy mode
+                    let r3 = guard(|| Biscuit::unsafe_deprecated_deserialize(variant, *rootk).is_ok());
+                    match r3 {
+                        Err(p) => return Verdict::Panic(p),
+                        Ok(true) => {
+                            let rk = rootk.to_proto();
+                            if rsig_verify_mode(variant, rk.algorithm, &rk.key, true).is_err() {
+                                return Verdict::Forged("Biscuit::from refuses but Biscuit::unsafe_deprecated_deserialize accepts (and the independent verifier refuses it even in legacy mode)".into());
+                            }
+                            return Verdict::Rejected;
+                        }
+                        Ok(false) => return Verdict::Rejected,
+                    }
+                }
             }
         }
         Ok(Ok(t)) => t,
